@@ -3,7 +3,6 @@
 //! specification assigns to the bytes.
 
 use crate::fam::{self, Family, V3, V5};
-use crate::gen::GenCfg;
 use crate::model::{self, fnv, hex_short, normalize, serialize};
 use crate::mutate;
 use crate::refdec::{self, Reject};
@@ -71,7 +70,7 @@ pub fn decide<F: Family>(bytes: &[u8], ctx: &mut Ctx) -> Result<Option<String>, 
 
 fn case<F: Family>(input: &Input, ctx: &mut Ctx) -> CaseResult {
     let mut t = Tape::new(input.tape());
-    let cfg = if ctx.thorough && t.chance(1, 6) { GenCfg::MEDIUM } else { GenCfg::SMALL };
+    let cfg = crate::gen::cfg_mix(&mut t, ctx.thorough);
     let p = F::gen(&mut t, &cfg).map_err(|e| Violation::new(e.0))?;
     let mut w = F::project(&p);
     let tags = mutate::respell(&mut w, &mut t, false);
